@@ -271,6 +271,9 @@ void harness_step(void)
 
 	arbitrary_groups(NG);
 	for (unsigned int i = 0; i < NG; i++) {
+#ifdef SLEN
+		GA[i].sockets_len = SLEN; /* concrete group size per job: keeps the nested stop/callback loops concrete */
+#endif
 		VASSUME(GA[i].sockets_len >= 1);
 		for (unsigned int j = 0; j < i; j++)
 			VASSUME(GA[i].preference > GA[j].preference); /* already ascending and distinct */
